@@ -305,8 +305,33 @@ func ruleErrDecimalWrappers(w *World, r *RuleResult) {
 			}
 		}
 	}
+	// both stores on every path to every return
+	for _, b := range u.Blocks {
+		rt, isRet := b.Instrs[len(b.Instrs)-1].(*ssa.Return)
+		if !isRet {
+			continue
+		}
+		flagsSeen := seenBefore(rt, func(in ssa.Instruction) bool {
+			st, ok := in.(*ssa.Store)
+			if !ok || w.exprOf(u, st.Addr).String() != "&e.Flags" {
+				return false
+			}
+			bo, ok := st.Val.(*ssa.BinOp)
+			return ok && bo.Op == token.OR
+		})
+		errSeen := seenBefore(rt, func(in ssa.Instruction) bool {
+			st, ok := in.(*ssa.Store)
+			return ok && w.exprOf(u, st.Addr).String() == "&e.err"
+		})
+		if !flagsSeen {
+			okFlags = false
+		}
+		if !errSeen {
+			okErr = false
+		}
+	}
 	if okFlags && okErr {
-		r.ok("(*ErrDecimal).update | accumulates", w.pos(u.Pos()), "Flags |= res; err = err", true)
+		r.ok("(*ErrDecimal).update | accumulates", w.pos(u.Pos()), "Flags |= res; err = err on every path", true)
 	} else {
 		r.bad("(*ErrDecimal).update | accumulates", w.pos(u.Pos()), fmt.Sprintf("update must do e.Flags |= res (found: %v) and e.err = err (found: %v)", okFlags, okErr))
 	}
